@@ -473,6 +473,11 @@ def clampSize (off size outmaxsent av : Int) : Int :=
 def charge (oused outmaxsent e : Int) : Int × Int :=
   if e > outmaxsent then (consume oused (e - outmaxsent), e) else (oused, outmaxsent)
 
+/-- `if fin { s.outclosed.setSent(pnum) }` with `fin` cleared when the frame was truncated
+(repaired code): only a frame that carries the FIN bit on the wire records the FIN as sent. -/
+def markFin (s : Stream) (wireFin : Bool) (pnum : Int) : Stream :=
+  if wireFin then { s with outclosed := .sent pnum } else s
+
 /-- the STREAM loop of `appendOutFramesLocked`. -/
 def outLoop : Nat → Conn → Stream → Writer → Int → Bool → Conn × Stream × Writer × Bool
   | 0, c, s, w, _, _ => (c, s, w, true)
@@ -496,7 +501,7 @@ def outLoop : Nat → Conn → Stream → Writer → Int → Bool → Conn × St
         let s := { s with outunsent := Rangeset.sub s.outunsent off e }
         let s := frameOpensStream s pnum
         -- `if len(b) < size { fin = false }`: only a frame that really carries the FIN bit marks it sent
-        let s := if wireFin then { s with outclosed := .sent pnum } else s
+        let s := markFin s wireFin pnum
         if pto then (c, s, w, true)
         else if n < size then (c, s, w, false)
         else outLoop fuel c s w pnum pto
